@@ -23,13 +23,15 @@ static std::string pick_host(Rng& r) {
     auto ip4 = [&]() { std::string t; for (int i = 0; i < 4; i++) { if (i) t += "."; if (r.chance(40)) t += bad_oct[r.below(13)]; else t += std::to_string(oct[r.below(16)]); } return t; };
     if (k < 80) return ip4();
     static const char* grp[] = {"0", "1", "a", "F", "10", "ab", "100", "aBc", "1000", "ffff", "FFFF", "dB8", "0000", "01"};
+    // a group of seeded hex digits: 1-4 of them, rarely 5 or 6 (one too many for the scanner's digit history), either letter case
+    auto hexgrp = [&]() { std::string g; int n = r.chance(90) ? r.range(5, 6) : r.range(1, 4); for (int i = 0; i < n; i++) { char c = "0123456789abcdef"[r.below(16)]; if (c >= 'a' && r.chance(512)) c = (char)(c - 32); g += c; } return g; };
     std::string t = "[";
     int n = r.range(1, 8), zip = r.chance(600) ? r.range(0, n) : -1;
     bool v4 = r.chance(200);
     if (zip < 0) n = v4 ? 6 : 8;
     for (int i = 0; i < n; i++) {
         if (i == zip) t += i == 0 ? "::" : ":";
-        t += grp[r.below(14)];
+        t += r.chance(350) ? hexgrp() : std::string(grp[r.below(14)]);
         if (i + 1 < n || v4) t += ":";
     }
     if (zip == n) t += t.back() == ':' ? ":" : "::";
